@@ -573,6 +573,28 @@ def run_memo(desc):
                 if sample is None and hit and i > 3 and desc["batch"] == 0 and cname in ("lru_shared", "disk"):
                     sample = {"kind": "memo", "cache": cname, "argument": M.pyrepr(x)[:300], "label": label,
                               "result_from_cache": str(r)[:200], "direct_result": expect[:200]}
+                # call-shape look-alikes: the same leaves arranged as different (args, kwargs); each distinct call
+                # must get its own result (positional vs keyword, an argument that *looks like* an (args, kwargs) pair)
+                x = group[0][1]
+                shapes = [((x,), {}), ((), {"x": x}), (((x,), {}), {}), ((x,), {"a": extra}), (((x,), {"a": extra}), {}),
+                          ((x, extra), {}), (((x, extra),), {}), ((x,), {"b": extra}), ((), {"a": extra, "x": x}),
+                          (([x],), {}), ((x, {"a": extra}), {}), (((x,),), {}), ((), {"x": (x,)}), (((), {"x": x}), {})]
+                rng.shuffle(shapes)
+                for args, kwargs in shapes:
+                    expect = canon_call(args, kwargs)
+                    v.count("memo_shape_calls")
+                    try:
+                        with warnings.catch_warnings():
+                            warnings.simplefilter("ignore")
+                            r = memo(*args, **kwargs)
+                    except Exception:  # noqa: BLE001  (judged above for the plain forms)
+                        v.count("memo_shape_raised")
+                        continue
+                    if r != expect:
+                        v.bad("stale-hit/call-shape",
+                              f"memoize ({cname}) returned the result stored for a call with a different (args, kwargs) shape",
+                              call=f"args={M.pyrepr(args)[:300]} kwargs={M.pyrepr(kwargs)[:200]}", returned=str(r)[:300],
+                              direct_result=expect[:300], cache=cname)
         v.count(f"memo_probe_calls:{cname}", len(probe_calls))
     return v.result(keys=[], sample=sample)
 
